@@ -31,7 +31,7 @@ struct OsProc {
   int pid; bool console; int pipe; int ref;             // index into g_ref
   std::vector<long> snap; bool missing_input; int flags; long cmdh;
   bool will_fail; std::string to_write; bool split;                     // output still to be written; written in two parts or at once
-  bool exited, reaped; int wstatus; bool own_pgroup, stdin_null, out_on_pipe; int killed_by; long stdout_len_at_start;
+  bool exited, reaped, lingering; int wstatus; bool own_pgroup, stdin_null, out_on_pipe; int killed_by; long stdout_len_at_start;
 };
 struct OsWorld {
   std::vector<OsPipe> pipes; std::vector<OsProc> procs; int next_pid;
@@ -200,7 +200,7 @@ int OSFN(posix_spawn)(pid_t* pid, const char* path, const posix_spawn_file_actio
   if (ref < 0) return ENOENT;
   if (verif_vfs_frozen()) g_dead = true;
   const RefEdge& e = g_ref[ref];
-  OsProc p; p.pid = g_os->next_pid++; p.ref = ref; p.exited = p.reaped = false; p.wstatus = 0; p.killed_by = 0; p.missing_input = false; p.cmdh = e.cmdh; p.flags = e.flags;
+  OsProc p; p.pid = g_os->next_pid++; p.ref = ref; p.exited = p.reaped = p.lingering = false; p.wstatus = 0; p.killed_by = 0; p.missing_input = false; p.cmdh = e.cmdh; p.flags = e.flags;
   p.out_on_pipe = g_os->fa_dup_to_1 >= 0 && g_os->fa_dup_to_1 == g_os->fa_dup_to_2; p.own_pgroup = (g_os->at_flags & POSIX_SPAWN_SETPGROUP) != 0; p.stdin_null = g_os->fa_stdin_null;
   p.console = !p.out_on_pipe; p.pipe = -1;
   if (p.out_on_pipe) { for (size_t i = 0; i < g_os->pipes.size(); i++) if (g_os->pipes[i].w_open && g_os->pipes[i].w_fd == g_os->fa_dup_to_1) p.pipe = (int)i;
@@ -231,7 +231,7 @@ int OSFN(posix_spawn)(pid_t* pid, const char* path, const posix_spawn_file_actio
   p.will_fail = p.missing_input || (p.flags & ALWAYS_FAILS);          // whether it fails is a property of the command and what it read
   if (!p.will_fail && g_os_opts.may_fail) p.will_fail = verif_bool("command_fails");
   if (p.will_fail) p.to_write = g_os_opts.prints_output ? "<<err " + e.outs[0] + ">>\n" : std::string("boom");
-  else if (g_os_opts.prints_output && !p.console && verif_bool("command_prints")) { p.to_write = "<<out " + e.outs[0] + ">>\npart two of " + e.outs[0] + "\n"; p.split = verif_bool("output_in_two_writes"); os_sink_event("printed " + e.outs[0]); }
+  else if (g_os_opts.prints_output && !p.console && verif_bool("command_prints")) { p.to_write = out_block(e.outs[0]); p.split = verif_bool("output_in_two_writes"); os_sink_event("printed " + e.outs[0]); }
   if (!p.will_fail && e.deps_type == "msvc") for (size_t q = 0; q < e.reads.size(); q++) p.to_write += "Note: including file: " + e.reads[q] + "\n";
   if (g_dead) { p.exited = true; p.reaped = false; p.wstatus = 0; if (p.pipe >= 0) { g_os->pipes[p.pipe].data.clear(); g_os->pipes[p.pipe].child_w = false; } }
   g_os->procs.push_back(p);
@@ -248,7 +248,12 @@ pid_t OSFN(waitpid)(pid_t pid, int* status, int options) {
 #endif
   }
   VERIF_ASSERT(!p->reaped, "C06: a command is waited for once");
-  if (!p->exited) { if (options & WNOHANG) return 0; os_proc_exit(*p); if (p->pipe >= 0) { /* its descriptors close with it */ } }
+  if (!p->exited) {
+    if (options & WNOHANG) return 0;
+    // a command that did not die the instant it was signalled: it may still modify its outputs before it goes
+    if (p->lingering && verif_bool("interrupted_command_touched_outputs")) { const RefEdge& e = g_ref[p->ref]; for (size_t k = 0; k < e.outs.size(); k++) g_tree->write(e.outs[k], -13 - (long)k); os_sink_event("touched " + e.outs[0]); }
+    os_proc_exit(*p);
+  }
   p->reaped = true; if (status) *status = p->wstatus; return pid;
 }
 int OSFN(kill)(pid_t pid, int sig) {
@@ -261,7 +266,9 @@ int OSFN(kill)(pid_t pid, int sig) {
 #endif
   }
   VERIF_ASSERT(pid < 0 && !p->console, "C07: ninja signals the process group of commands that do not share its terminal, and only those");
-  if (sig != 0 && !p->exited) { p->killed_by = sig; os_sink_event("killed " + g_ref[p->ref].outs[0]);
+  if (sig != 0 && !p->exited && !p->lingering) { p->killed_by = sig; os_sink_event("killed " + g_ref[p->ref].outs[0]);
+    // the signal is delivered asynchronously: the command may still be alive when kill() returns and ends only while ninja waits for it
+    if (verif_bool("signalled_command_dies_later")) { p->lingering = true; p->to_write.clear(); verif_reach("lingering-command"); return 0; }
     // the command may already have modified its outputs when the signal reaches it
     if (verif_bool("interrupted_command_touched_outputs")) { const RefEdge& e = g_ref[p->ref]; for (size_t k = 0; k < e.outs.size(); k++) g_tree->write(e.outs[k], -13 - (long)k); os_sink_event("touched " + e.outs[0]); }
     p->to_write.clear(); os_proc_exit(*p); }
@@ -305,8 +312,13 @@ int OSFN(ppoll)(struct pollfd* fds, nfds_t nfds, const struct timespec*, const s
     else {
       if (g_os_opts.prints_output && p.console) VERIF_ASSERT(verif_stdout_len() == p.stdout_len_at_start, "C20: while a console-pool command owns the terminal nothing else is written to it");
       os_proc_exit(p);
-      console_exit = p.console;
-      if (g_os->h_chld) g_os->h_chld(SIGCHLD, NULL, NULL);
+      console_exit = p.console; int first_pid = p.pid;
+      // SIGCHLD is not queued: a second command may exit before ninja's handler gets to run, which then runs once, with the first child's pid
+      { std::vector<int> live2; for (size_t i = 0; i < g_os->procs.size(); i++) if (!g_os->procs[i].exited) live2.push_back((int)i);
+        if (!live2.empty() && verif_bool("second_command_exits_before_sigchld_is_handled")) { int k2 = live2.size() > 1 ? verif_choice("finish_which", (int)live2.size()) : 0; OsProc& q = g_os->procs[live2[k2]];
+          if (g_os_opts.prints_output && q.console) VERIF_ASSERT(verif_stdout_len() == q.stdout_len_at_start, "C20: while a console-pool command owns the terminal nothing else is written to it");
+          os_proc_exit(q); console_exit = console_exit || q.console; verif_reach("coalesced-sigchld"); } }
+      if (g_os->h_chld) { siginfo_t si; memset(&si, 0, sizeof si); si.si_signo = SIGCHLD; si.si_code = CLD_EXITED; si.si_pid = first_pid; g_os->h_chld(SIGCHLD, &si, NULL); }
       // the SIGCHLD may interrupt the poll before the end of file on the pipe is reported (always so for console commands, which have no pipe)
       if (console_exit || g_os->sigchld_first) { errno = EINTR; return -1; }
     }
